@@ -5,13 +5,21 @@ the same block: every traced wire on every cycle and the final memory contents
 are compared, over {pre-synthesis, synthesized (merged / unmerged I/O), optimized}
 blocks.
 
- tie   (a) pyrtl.Simulation's trace == Coq Sim/FastModel.v (fastmodel_case) on every wire and
-           cycle; the mask-elision decision per net read off FastSimulation._compiled()'s
-           generated source == Gen/FastMask.v's decision (fast_elides); sampled nets x operand
-           values: Coq Sim/CLimb.v builders (climb_op) == the value the C simulator shows.
- search(b) FastSimulation / CompiledSimulation vs Simulation AND vs Netlist/Sem.v (spec_case);
-           a disagreement is attributed to the first net (block order) whose observable
-           destination differs -> signature '<simulator>:<op>[:limb]'.
+ tie   (a) Coq Sim/FastModel.v (c02_case) == pyrtl.FastSimulation on every wire, cycle and
+           final memory word (and == pyrtl.Simulation wherever fast_wfb holds, i.e. where
+           C02_fast_refines_spec applies); the mask-elision decision per net read off
+           FastSimulation._compiled()'s generated source == Gen/FastMask.v's decision
+           (fast_elides); sampled nets x operand values: Coq Sim/CLimb.v builders (climb_check)
+           == the value the C simulator shows (through an exact-width probe Output when there
+           is one, else Simulation's value).
+ search(b) FastSimulation / CompiledSimulation vs Simulation AND vs Netlist/Sem.v; a
+           disagreement is attributed to the first net (block order) whose observable
+           destination differs -> signature '<simulator>:<op>[:limb]', with dedicated
+           signatures for the known defect classes (see net_signature).
+
+Values cross the Coq boundary as hexadecimal numerals / 61-bit polynomial fingerprints of
+each row (decimal 100+-bit numerals cost ~5 ms each to parse or print); on a fingerprint
+mismatch the case is re-evaluated with every value printed (spec_case / fastmodel_case).
 """
 import concurrent.futures
 import re
@@ -33,11 +41,18 @@ IMPORTS_FAST = 'From PyRTL Require Import Sim.FastModel Sim.FastModelHarness.'
 IMPORTS_CLIMB = 'From PyRTL Require Import Netlist.Syntax Sim.CLimb Sim.CLimbHarness.'
 COQ_TARGETS = ['theories/Netlist/SpecHarness.vo', 'theories/Sim/FastModelHarness.vo',
                'theories/Sim/CLimbHarness.vo']
-TRUSTED = ['Sim/CLimb.v `limbs_to_Z` + per-builder statements in Props/C02.v (what a limb array denotes)',
+TRUSTED = ['Sim/CLimb.v `limbs_to_Z` / `limbs_ok` + the per-builder statements in Props/C02.v (what a limb array denotes)',
+           'Sim/CLimb.v and Sim/FastModel.v are hand transliterations of the emitters (tied by translated fragments: mask '
+           'tables, emitted expression texts, assignment templates, _limbs/_makemask/_getarglimb, concat loop-test order; '
+           'and behaviourally on every run)',
            'gcc -O0 and the x86-64 `mulq` inline asm implement C99 uint64_t arithmetic / a 64x64->128 multiply '
            '(the C text is modelled per builder; its compilation is exercised only behaviourally)']
 ASSUMPTIONS = [
     'initial register/memory values and default_value are within range (legal_init)',
+    'Coq-side comparison is by 61-bit polynomial fingerprint per trace row (mod 2^61-1); all values are fetched '
+    'and compared individually whenever a fingerprint differs',
+    'the design space includes sanity_check-valid blocks that the construction API cannot build (LogicNets whose '
+    'destination is narrower than the natural result); they are what reaches the mask branches of both generators',
     'sanctioned difference: CompiledSimulation does not apply a non-zero default_value to memories; such '
     '(design, default) pairs are excluded from the Compiled comparison only',
     'FastModel: every select has a non-empty op_param and every register has an `r` net (Block.sanity_check)',
@@ -343,11 +358,23 @@ def net_signature(simname, net):
     return '%s:%s%s' % (simname, net.op, ':limb' if wide else '')
 
 
+def truncated_probes(block):
+    """names of non-I/O wires with a `w` net to a NARROWER Output (CompiledSimulation may pick it as probe)"""
+    out = set()
+    for n in block.logic:
+        if n.op == 'w' and isinstance(n.dests[0], pyrtl.Output) and len(n.dests[0]) < len(n.args[0]) \
+                and not isinstance(n.args[0], (pyrtl.Input, pyrtl.Output)):
+            out.add(n.args[0].name)
+    return out
+
+
 def observable_map(block, traced):
     """wire name -> traced name showing exactly its value (itself, or a same-or-wider probe Output)"""
     obs = {}
+    bad_probe = truncated_probes(block)
     for nm in traced:
-        obs[nm] = nm
+        if nm not in bad_probe:
+            obs[nm] = nm
     for n in block.logic:
         if n.op == 'w' and n.dests[0].name in traced and len(n.dests[0]) >= len(n.args[0]):
             obs.setdefault(n.args[0].name, n.dests[0].name)
@@ -759,7 +786,15 @@ def compare_case(ctx, case):
         if missing:
             ctx.spec_violation('compiled:traced-wire-set', 'CompiledSimulation does not trace some Inputs/Outputs',
                                replay_dict(ctx, case, {'missing': missing[:10]}))
-        common = {k: v for k, v in ctrace.items() if k in ref_trace}
+        # a wire traced through a probe Output (CompiledSimulation._probe_mapping) whose `w` net truncates
+        suspect = truncated_probes(block)
+        for nm in sorted(suspect & set(ctrace)):
+            if nm in ref_trace and ctrace[nm] != ref_trace[nm]:
+                ctx.spec_violation('compiled:probe-through-truncating-w',
+                                   'CompiledSimulation reports wire %s through a NARROWER probe Output: %s instead of %s'
+                                   % (nm, ctrace[nm][:3], ref_trace[nm][:3]),
+                                   replay_dict(ctx, case, {'wire': nm, 'simulation': ref_trace[nm], 'compiled': ctrace[nm]}))
+        common = {k: v for k, v in ctrace.items() if k in ref_trace and k not in suspect}
         bad = first_bad_net(block, order, ref_trace, common, ncyc)
         if bad:
             t, n, src, exp, got = bad
@@ -791,7 +826,8 @@ def compare_case(ctx, case):
         if simname == 'compiled' and case['dflt'] != 0 and case['has_mem']:
             continue
         tr, mem = result
-        common = {k: v for k, v in tr.items() if k in spec_trace}
+        skip = truncated_probes(block) if simname == 'compiled' else set()
+        common = {k: v for k, v in tr.items() if k in spec_trace and k not in skip}
         bad = first_bad_net(block, order, spec_trace, common, ncyc)
         if bad:
             t, n, src, exp, got = bad
@@ -810,11 +846,14 @@ def compare_case(ctx, case):
     fm = case['fastmodel']
     if fm is not None:
         trunc_xcs = [n for n in order if n.op in 'xcs' and truncating(n)]
-        if fm[0][0] != 1 or (fm[0][1] != 1 and not trunc_xcs) or (fm[0][1] == 1 and trunc_xcs):
+        # fast_wfb may only fail because of truncating mux/concat/select nets, and only while the source's
+        # masked assignment text is unparenthesised (Gen/FastOps.fast_mask_parenthesised = false)
+        if fm[0][0] != 1 or (fm[0][1] != 1 and not trunc_xcs):
             ctx.model_mismatch('wfb / fast_wfb = %s on a sanity-checked block with %d truncating x/c/s nets'
                                % (fm[0], len(trunc_xcs)), replay_dict(ctx, case))
         ctx.count('fast_wfb', 'true (C02_fast_refines_spec applies)' if fm[0][1] == 1
                   else 'false (block has a truncating mux/concat/select net)')
+        ctx.count('truncating_mux_concat_select_nets', len(trunc_xcs))
         model_flags = fm[1]
         model_mem = fm[2]
         model_trace = {nm: [fm[3 + t][k] for t in range(ncyc)] for k, nm in enumerate(dnames)}
